@@ -138,6 +138,8 @@ def validator_spec(rng, fe, life_ms, accept_bias=0.7, late_bias=0.15):
         spec['raise'] = rng.choice(['timeout', 'cancel'])
     if rng.random() < 0.05:
         spec['falsy'] = True
+    if rng.random() < 0.08:
+        spec['shape'] = 'future'
     return spec
 
 
@@ -289,7 +291,7 @@ def add_consumer_side(b, rng, fe, n_int, focus='c03', lp_prob=0.1, transparent=F
             # the caller positions the parameters digest itself with a placeholder component (at the end or inside the name)
             kw['placeholder'] = rng.choice(['end', 'mid'])
         if rng.random() < 0.12 and rec['life'] >= 20:
-            kw['await_delay_us'] = rng.choice([1, 1000, rec['life'] * 250, rec['life'] * 500])
+            kw['await_delay_us'] = rng.choice([1, 1000, rec['life'] * 250, rec['life'] * 500, rec['life'] * 1500, rec['life'] * 3000])
         b.op(rec['te'], 'express', id=rec['id'], name=rec['name'], cbp=rec['cbp'], lifetime=rec['life'],
              validator=rec['vs'], **kw)
     # fix nack packets of digest-carrying Interests
@@ -507,6 +509,20 @@ def gen_c04(rng, seed, tier='quick'):
     appv, long_tail = add_producer_side(b, rng, cfg['frontend'], focus='c04', tokens=rng.random() < 0.3)
     if cfg['frontend'] == 'v1' and not cfg.get('dispatcher') and cfg['face'] == 'direct' and rng.random() < 0.4:
         cfg['nfd'] = True
+        if rng.random() < 0.4:
+            # the forwarder refuses / does not answer some commands: what is attached locally does not depend on that
+            cfg['nfd_fail'] = [rng.choice(['ok', 'ok', 'status', 'nack', 'silence']) for _ in range(4)]
+        for o in b.ops:
+            if o['op'] == 'attach' and rng.random() < 0.5 and \
+                    not any(x is not o and x['op'] in ('attach', 'detach') and x['prefix'] == o['prefix'] and abs(x['at'] - o['at']) < 3000
+                            for x in b.ops) and \
+                    not any(x['op'] == 'rx' and abs(x['at'] - o['at']) < 1500 for x in b.ops):
+                # register(name, func): attaches the filter (one loop iteration after the call), then asks the forwarder
+                o['via'] = 'register'
+        for o in list(b.ops):
+            if o['op'] == 'attach' and o.get('via') != 'register' and rng.random() < 0.25:
+                # later: register(name, None) for the same prefix - only the command, nothing is attached or detached
+                b.op(o['at'] + rng.choice([1000, 5000, 20000]), 'register_only', prefix=list(o['prefix']))
         for o in b.ops:
             if o['op'] == 'detach' and rng.random() < 0.6:
                 # (unregister() removes the filter one loop iteration after the call: keep other table operations on
@@ -688,7 +704,11 @@ def gen_c06(rng, seed, tier='quick'):
                              {'frag': [None, 1]}, {'frag': [0, 2], 'hdr': [[0x51, '0000000000000001']]},
                              {'frag': [0, 1], 'hdr': [[0x51, '0000000000000002']]},
                              # a Nack header around whatever the pool offers (for a Data that is no Nack at all)
-                             {'nack': 150}, {'nack': 'none'}, {'nack': 50, 'token': 'ab'}])
+                             {'nack': 150}, {'nack': 'none'}, {'nack': 50, 'token': 'ab'},
+                             # header fields out of order / behind the Fragment
+                             {'token': 'aa', 'hdr': [[0x0340, '01']], 'order': 'reverse'}, {'nack': 150, 'order': 'nack_last'},
+                             {'token': 'ab', 'order': 'frag_first'}, {'frag': [1, 2], 'token': 'cd', 'order': 'reverse'},
+                             {'nack': 100, 'hdr': [[0x0340, '01']], 'order': 'reverse'}])
             b.rx(t, bpid, lp=lp)
         b.faults += 1
     # 4. the legitimate packets
@@ -737,6 +757,11 @@ def gen_c10(rng, seed, tier='quick'):
             lp = {'frag': rng.choice([[0, 2], [1, 2], [2, 5], [None, 3], [1, None], [0, 1], [1, 1], [0, None], [None, 1], [3, 0]])}
             if rng.random() < 0.25 and b.packets[str(pid)].get('k') == 'data':
                 lp = {'nack': rng.choice([50, 150, 'none'])}       # a Data inside a Nack envelope is no Nack and no Data
+            elif rng.random() < 0.25:
+                # the same packet in an envelope whose header fields are out of order (or behind the Fragment)
+                lp = rng.choice([{'token': 'aa', 'hdr': [[0x0340, '01']], 'order': 'reverse'}, {'token': 'ab', 'order': 'frag_first'},
+                                 {'nack': 150, 'order': 'nack_last'}, {'nack': 50, 'hdr': [[0x0340, '01']], 'order': 'reverse'}])
+                lp = dict(lp)
             if rng.random() < 0.5:
                 lp['token'] = rand_token(rng)
             if rng.random() < 0.4:
